@@ -69,7 +69,7 @@ func newLexer(src string, lineMode bool) *lexer.Lexer {
 	if lineMode {
 		return lexer.NewLineMode(src)
 	}
-	return lexer.New(src)
+	return lexer.NewBytes(exactBytes(src))
 }
 
 // lexAll returns every NextToken() result until the lexer is stuck on its end marker, followed
@@ -727,4 +727,13 @@ func parse15Gen(tier string, r *rng, emit func(string)) {
 		emitCuts(string(data), max)
 	}
 	parse15GapFamilies(tier, r, emitCuts, emit) // parse15fam2.go
+}
+
+// exactBytes: the input as a slice whose capacity equals its length.  []byte(string) rounds the capacity up to an allocation class, which
+// hides every slice expression of the lexer that runs past the END of the input (its position legitimately does, after a truncated
+// \x \u \U escape) unless the length happens to be a class size (seeded change C08-8: CurrentLine without its clamp).
+func exactBytes(src string) []byte {
+	b := make([]byte, len(src))
+	copy(b, src)
+	return b[:len(b):len(b)]
 }
